@@ -42,6 +42,10 @@ def kv (l : List String) : List (String × String) :=
     | [k, v] => some (k, v)
     | _ => none
 
+/-- positions (0-based) where two answer lists differ, joined by '+' -/
+def diffIdx (a b : List Bool) : String :=
+  "+".intercalate (((List.range (max a.length b.length)).filter fun i => a[i]? != b[i]?).map toString)
+
 def check (line : String) : String :=
   match splitBar (Driver.tokens line) with
   | [["D"], ta, tb, obs] =>
@@ -73,8 +77,8 @@ def check (line : String) : String :=
             else if pm != m then s!"prepared-relate m={m.toStr} pm={pm.toStr}"
             else if (if ea && eb then dropEquals p != dropEquals (predsOf m dA dB) else p != predsOf m dA dB) then s!"named-vs-matrix m={m.toStr} P={get "P"} dims={dA},{dB}"
             else if (if ea && eb then dropEquals pb != dropEquals (predsOf mt dB dA) else pb != predsOf mt dB dA) then s!"named-vs-matrix-swapped mt={mt.toStr} PB={get "PB"} dims={dB},{dA}"
-            else if q != prepPredsOf m dA dB then s!"prepared-vs-matrix m={m.toStr} Q={get "Q"} dims={dA},{dB}"
-            else if qb != prepPredsOf mt dB dA then s!"prepared-vs-matrix-swapped mt={mt.toStr} QB={get "QB"} dims={dB},{dA}"
+            else if q != prepPredsOf m dA dB then s!"prepared-vs-matrix m={m.toStr} Q={get "Q"} dims={dA},{dB} qdiff={diffIdx q (prepPredsOf m dA dB)}"
+            else if qb != prepPredsOf mt dB dA then s!"prepared-vs-matrix-swapped mt={mt.toStr} QB={get "QB"} dims={dB},{dA} qdiff={diffIdx qb (prepPredsOf mt dB dA)}"
             else if !(ob.pats.all fun (pp, r, pr) => r == m.matchesPat pp && pr == r) then s!"pattern m={m.toStr} pat={get "pat"}"
             else s!"self-relations self={get "self"}"
           -- for the self relations the contact that matters is inside A: a vertex of A within rounding distance of another segment of A
